@@ -155,11 +155,16 @@ def t_sorting_repo(ex):
         it.models[r.itermatch] = None
     from pyvc.sym import SObj
     me = SObj(misc.multiplex_sorting_repo, {"__repos__": repos, "__sorter__": "SORTER"})
-    out = call(it, it.target(MISC, "multiplex_sorting_repo.itermatch"), me, "RESTRICT")
+    # the query is any restriction: an opaque one, or an atom of any version operator (several versions and revisions of a package may sit in
+    # different repositories whatever the operator is -- '~' pins the version, not the revision)
+    import types as _types
+    kind = ex.choose(8)
+    RESTRICT = "RESTRICT" if kind == 0 else _types.SimpleNamespace(op=("", "=", "~", ">=", "<", "=*", None)[kind - 1], negate_vers=False, blocks=False, version="1", key="a/b")
+    out = call(it, it.target(MISC, "multiplex_sorting_repo.itermatch"), me, RESTRICT)
     ex.oblige(f"{P}.raises.nothing", not out.raised, kind="exceptional-postcondition")
     if not out.raised:
         ex.oblige(f"{P}.ensures.merges_every_repositorys_answer_with_the_sorter_in_order",
-                  out.value == ("iter_sort", "SORTER", (("answer", 1, "RESTRICT"), ("answer", 2, "RESTRICT"), ("answer", 3, "RESTRICT"))))
+                  out.value == ("iter_sort", "SORTER", (("answer", 1, RESTRICT), ("answer", 2, RESTRICT), ("answer", 3, RESTRICT))))
 
 
 def t_resolvers(ex):
@@ -280,6 +285,35 @@ def enum_resolution(seed):
                         needed = any(o[1].startswith(t2 + "-") for o in H.resolve(kind, src_d, inst_d, [t1])[4])
                         if not needed:
                             fails.append({"model": model, "detail": f"minimal install of {t1} then {t2}: {t2} is satisfied by an installed package and {t1}'s own plan does not touch it, yet the joint plan merges another: {ops}"})
+    # targets with a version operator over a package that exists in several revisions, the installed one not the highest: the upgrade ends at
+    # the highest version the target matches (directly, and as the dependency of another target), the minimal install keeps a matching installed one
+    rev_src = {"a": {"b": {"1": {}, "1-r1": {}, "1-r2": {}, "2": {}, "2-r1": {}, "3": {}}, "top": {"1": {"RDEPEND": "~a/b-1"}}, "top2": {"1": {"RDEPEND": "<a/b-3 >=a/b-1-r1"}}}}
+    for inst_v in (None, "1", "1-r1", "2"):
+        inst_d = {"a": {"b": {inst_v: {}}}} if inst_v else {}
+        for t in ("~a/b-1", "=a/b-1", "=a/b-1*", ">=a/b-1-r1", "<a/b-2", "<=a/b-2", "~a/b-2", ">a/b-1", "<a/b-3", "a/top", "a/top2"):
+            for kind in ("upgrade", "min_install"):
+                sessions += 1
+                cases += 1
+                model = {"digest": _digest(rev_src, inst_d, t, kind), "source": rev_src, "installed": inst_d, "target": t, "strategy": kind}
+                try:
+                    r, src, vdb, failures, ops = H.resolve(kind, rev_src, inst_d, [t])
+                except Exception as e:
+                    fails.append({"model": model, "detail": f"resolution raised {type(e).__name__}: {e}"})
+                    continue
+                if failures:
+                    fails.append({"model": model, "detail": f"{kind} of {t} failed: {failures}"})
+                    continue
+                fin = H.final_state(vdb, r)
+                dep = {"a/top": "~a/b-1", "a/top2": None}.get(t, t)
+                bs = sorted(p for p in fin if p.key == "a/b")
+                if kind == "upgrade" and dep is not None:
+                    want = sorted(p for p in src if atom(dep).match(p))[-1]
+                    if [p.cpvstr for p in bs] != [want.cpvstr]:
+                        fails.append({"model": dict(model, ops=ops), "detail": f"upgrade of {t} with a/b-{inst_v} installed: the highest version {dep} matches is {want.cpvstr}; the final state holds {[p.cpvstr for p in bs]}, plan {ops}"})
+                if kind == "upgrade" and t == "a/top2" and not any(atom("<a/b-3").match(p) and atom(">=a/b-1-r1").match(p) for p in bs):
+                    fails.append({"model": dict(model, ops=ops), "detail": f"upgrade of {t}: its dependency <a/b-3 >=a/b-1-r1 is not satisfied by the final state {[p.cpvstr for p in bs]}, plan {ops}"})
+                if kind == "min_install" and dep is not None and inst_v and atom(dep).match(next(iter(vdb))) and any(o[1].startswith("a/b-") for o in ops):
+                    fails.append({"model": dict(model, ops=ops), "detail": f"minimal install of {t}: the installed a/b-{inst_v} satisfies {dep}, yet the plan merges {ops}"})
     # one package installed in several slots, slot-qualified targets given to one resolver in sequence: every addressed slot gets its
     # own highest version on upgrade (whatever an earlier target of the same package loaded into the plan), nothing on minimal install
     for deps in ({}, {"RDEPEND": "a/lib"}):
@@ -351,7 +385,7 @@ def enum_resolution(seed):
     cases += sessions
     return {"name": "C16.resolution.bounded_enumeration",
             "bound": f"{per} seeded universes for each of the fixed seeds {THOROUGH_SEEDS if thorough else QUICK_SEEDS} (<= 4 packages x <= 3 versions, dependencies from {len(H.DEP_TEMPLATES)} templates, random installed subsets), "
-                     "one target each (resolved twice) and as many two-target sessions in one resolver, plus 96 sessions of slot-qualified and unqualified targets on a package installed in two or three slots, upgrade and minimal-install strategy, against a brute-force oracle (a version counts as resolvable when some dependency-closed selection containing it can be merged in an order that never needs a dependency cycle); "
+                     "one target each (resolved twice) and as many two-target sessions in one resolver, plus 88 single-target sessions with every version operator over a package in six versions / revisions (directly and as another target's dependency), 96 sessions of slot-qualified and unqualified targets on a package installed in two or three slots, upgrade and minimal-install strategy, against a brute-force oracle (a version counts as resolvable when some dependency-closed selection containing it can be merged in an order that never needs a dependency cycle); "
                      f"policy asserted in {asserted['highest']} upgrade cases with a resolvable highest version, {asserted['installed_equal']} with that version already installed, {asserted['reuse']} minimal installs with an installed match",
             "cases": cases, "failures": fails[:40]}
 
